@@ -21,20 +21,27 @@ from . import libmap
 from .refmodel import RefVal, Scenario, ref_apply
 
 
-def eval_tree(rel, scen: Scenario, list_semantics=True) -> RefVal:
+_LEAF_KEY = [lambda leaf: leaf.name]
+
+
+def eval_tree(rel, scen: Scenario, list_semantics=True, leaf_key=None) -> RefVal:
     """Evaluate a library tree.  With ``list_semantics`` every engine is treated as order-preserving
     (the value's ``rows`` is then *a* legal result; compare as multiset unless you know better)."""
     kinds = dict(scen.engine_kinds)
     if list_semantics:
         kinds = {k: "it" for k in kinds}
     s2 = Scenario(kinds, scen.leaf_val)
-    return _eval(rel, s2)
+    _LEAF_KEY.append(leaf_key or (lambda leaf: leaf.name))  # two leaves may share a name; callers resolve by payload
+    try:
+        return _eval(rel, s2)
+    finally:
+        _LEAF_KEY.pop()
 
 
 def _eval(rel, scen) -> RefVal:
     match rel:
         case LeafRelation():
-            return scen.leaf_val(rel.name)
+            return scen.leaf_val(_LEAF_KEY[-1](rel))
         case UnaryOperationRelation(operation=op, target=t):
             v = _eval(t, scen)
             return ref_apply(v, libmap.op_from_lib(op), scen, True)
